@@ -203,6 +203,9 @@ type firedWrite struct {
 // apiLikeDB has the permissions the database API has.
 var apiLikeDB = database.NewInterface(nil)
 
+// apiLikeTTLDB: the same permissions, and every record written through it expires an hour later.
+var apiLikeTTLDB = database.NewInterface(&database.Options{AlwaysSetRelativateExpiry: 3600})
+
 func performWrite(a inSend) error {
 	switch a.Kind {
 	case kDelete:
@@ -215,10 +218,14 @@ func performWrite(a inSend) error {
 		if err != nil {
 			return err
 		}
-		if a.Kind == kCreate {
-			return apiLikeDB.PutNew(w)
+		db := apiLikeDB
+		if a.TTL {
+			db = apiLikeTTLDB
 		}
-		return apiLikeDB.Put(w)
+		if a.Kind == kCreate {
+			return db.PutNew(w)
+		}
+		return db.Put(w)
 	}
 	return fmt.Errorf("harness: unknown in-send write %q", a.Kind)
 }
